@@ -1,4 +1,4 @@
-import GqlProofs.ExtReported
+import GqlProofs.ExtCtx
 /-! # C17 — Extension hooks are balanced, ordered and fault-isolated
 
 Property theorems only. `M` = `Ext.run` (graphql.Do + Execute + ExecutePlan + resolvePlannedField + the
@@ -12,7 +12,8 @@ History: on the pinned tree both theorems were false (D-17b: phases of other ext
 start hook; D-17c: no per-field finish call when a resolver panics; D-17d: hook errors dropped when a non-null
 root field fails). They were then proved as `…_partial` under the negation of three class predicates, with
 `decide`-checked negation witnesses (kept in notes/agents/C17-pinned/). The library was repaired (a934e54,
-5dab2fb, cfba981, 537e26f); the model follows the repaired code and the theorems below are the FULL statements. -/
+5dab2fb, cfba981, 537e26f); the model follows the repaired code and the theorems below are the FULL statements.
+Requests whose context is done form a further class, proved covered at the end of this file. -/
 namespace GqlModel.Ext
 
 /-! ## The expected outcomes used by `Balanced` on the log of `run xs req` are what the finish functions get -/
@@ -122,6 +123,65 @@ theorem d17c_repaired :
 theorem d17d_repaired :
     (run [faultyExt 1 .resStart .str] (.exec [.ok, .errNN])).2.errors
       = [.hook 1 .resStart .str, .hook 1 .resStart .str, .request] := by decide
+
+/-! ## Requests whose context is done (cancelled / past its deadline) before `ExecutePlan`'s `select` yields
+
+`runCtx xs fields at` = log when `Do` returns and result; `ctxLate xs fields at` = what the abandoned executor
+goroutine logs afterwards. The class is covered by the classes above: for the caller's goroutine it IS the
+`ctxReq` (= request error at execution) class, and the executor's resolve events are those of the live run. -/
+
+/-- the log at return without the executor's events, and the result, are those of `run xs ctxReq` -/
+theorem ctx_toplevel_covered (xs : List ExtBehaviour) (fields : List FieldOutcome) (c : CtxAt) (hnd : NodupNames xs) :
+    topLevel (runCtx xs fields c).1 = (run xs ctxReq).1 ∧ (runCtx xs fields c).2 = (run xs ctxReq).2 :=
+  ⟨runCtx_toplevel xs hnd fields c, runCtx_summary xs fields c⟩
+
+/-- the resolve events of the complete log are those of the live run (or none, if the body is not reached) -/
+theorem ctx_resolve_covered (xs : List ExtBehaviour) (fields : List FieldOutcome) (c : CtxAt) (hnd : NodupNames xs) :
+    resolveOnly ((runCtx xs fields c).1 ++ ctxLate xs fields c)
+      = if reachesBody xs (.exec fields) then (executeFields xs 0 fields).1 else [] :=
+  runCtx_resolveOnly xs hnd fields c
+
+/-- **trace_balanced_ordered_nested for the context-done class**: whatever the context state, init / parse /
+validation / execution / result collection are ordered, every such phase that was started is finished exactly once
+(execution with an error outcome) before `Do` returns, they are nested, results are collected; and every resolve
+phase the executor starts — before or after `Do` returned — is announced right before its resolver call and
+finished exactly once with the field's outcome. -/
+theorem ctx_trace_balanced_ordered_nested (xs : List ExtBehaviour) (fields : List FieldOutcome) (c : CtxAt)
+    (hnd : NodupNames xs) :
+    CtxBalancedOrderedNested fields (names xs) (runCtx xs fields c).1 (ctxLate xs fields c) := by
+  refine ⟨?_, ?_, ?_, ?_⟩
+  · rw [runCtx_toplevel xs hnd]; exact phase_order xs ctxReq hnd
+  · rw [runCtx_toplevel xs hnd]; exact balanced xs ctxReq hnd
+  · rw [runCtx_toplevel xs hnd]; exact nested xs ctxReq hnd
+  · intro a ha
+    obtain ⟨b, hb, rfl⟩ := List.mem_map.1 ha
+    exact ctx_resolvePhases xs hnd fields c b hb
+
+/-- **panic_isolated for the context-done class** (hooks called on the caller's goroutine) -/
+theorem ctx_panic_isolated (xs : List ExtBehaviour) (fields : List FieldOutcome) (c : CtxAt) (hnd : NodupNames xs) :
+    CtxPanicsReported (names xs) (runCtx xs fields c).1 (runCtx xs fields c).2 := by
+  unfold CtxPanicsReported
+  rw [runCtx_toplevel xs hnd, runCtx_summary]
+  exact panic_isolated xs ctxReq hnd
+
+/-- the context is cancelled while the resolver of the first of two fields runs: `Do` returns after finishing the
+execution phase (error outcome) and collecting results; the executor finishes both fields afterwards -/
+theorem ctx_cancel_in_resolver_example :
+    (runCtx [okExt 1] [.ok, .ok] (.inResolver 0)).1.map (fun e => (e.hook, e.fld, e.out)) =
+      [(.init, 0, .none), (.parseStart, 0, .none), (.parseEnd, 0, .ok), (.valStart, 0, .none), (.valEnd, 0, .ok),
+       (.execStart, 0, .none), (.resStart, 0, .none), (.resolver, 0, .ok), (.execEnd, 0, .err),
+       (.hasResult, 0, .none), (.getResult, 0, .none)] ∧
+    (ctxLate [okExt 1] [.ok, .ok] (.inResolver 0)).map (fun e => (e.hook, e.fld, e.out)) =
+      [(.resEnd, 0, .ok), (.resStart, 1, .none), (.resolver, 1, .ok), (.resEnd, 1, .ok)] ∧
+    (runCtx [okExt 1] [.ok, .ok] (.inResolver 0)).2 = ⟨[.request], [1], false⟩ := by decide
+
+/-- Observation O-17f (inherent to abandoning the executor; NOT claimed by the theorems above): in the complete log
+of such a request a resolve phase is open across the execution finish, and the error of a resolve hook that panics
+in the abandoned executor is not in the result. -/
+theorem ctx_full_log_observation :
+    ¬ Nested [1] ((runCtx [okExt 1] [.ok] (.inResolver 0)).1 ++ ctxLate [okExt 1] [.ok] (.inResolver 0)) ∧
+    reported ((runCtx [faultyExt 1 .resStart .err] [.ok] (.inResolver 0)).1)
+      (runCtx [faultyExt 1 .resStart .err] [.ok] (.inResolver 0)).2 = false := by decide
 
 /-- Outside the hypothesis of distinct names (still true of the code): two extensions registered under one name —
 the finish-function map keeps one entry per name, so only the later registration's finish functions run:
